@@ -2691,7 +2691,7 @@ def _record_to_dict(record: Record) -> Mapping[str, str | list[str]]:
         rv["prefix_synonyms"] = sorted(record.prefix_synonyms)
     if record.uri_prefix_synonyms:
         rv["uri_prefix_synonyms"] = sorted(record.uri_prefix_synonyms)
-    if record.pattern:
+    if record.pattern is not None:
         rv["pattern"] = record.pattern
     return rv
 
@@ -2900,8 +2900,10 @@ def write_tsv(
 
 
 def _get_shacl_line(prefix: str, uri_prefix: str, pattern: str | None = None) -> str:
+    prefix = prefix.replace("\\", "\\\\")
+    uri_prefix = uri_prefix.replace("\\", "\\\\")
     line = f'    [ sh:prefix "{prefix}" ; sh:namespace "{uri_prefix}"^^xsd:anyURI '
-    if pattern:
+    if pattern is not None:
         pattern = pattern.replace("\\", "\\\\")
         line += f'; sh:pattern "{pattern}"'
     return line + " ]"
